@@ -35,6 +35,16 @@ func pickScheme() {
 }
 
 func init() {
+	// C10 / C13: closing a listener affects only that object - the connections it accepted stay
+	// attached (no Detached) and usable (real tcp / IPC pipes and handshaker over the in-memory network)
+	for _, prop := range []string{"C10", "C13"} {
+		vexplore.Register(prop, func(tier string) []*vexplore.Scenario {
+			return []*vexplore.Scenario{{Name: "listener-closed-on-its-own-connections-stay", Mode: "enum", Reset: kit.ResetGlobals, Body: ListenerClosed, NeedCounters: []string{"conversation-went-on-after-listener-close"}}}
+		})
+	}
+}
+
+func init() {
 	vexplore.Register("C16", func(tier string) []*vexplore.Scenario {
 		b, L := 2, 5
 		if tier == "thorough" {
@@ -115,7 +125,10 @@ type srv struct {
 	detached int
 }
 
-func open(k *kinds.Kind, maxrx int) *srv {
+func open(k *kinds.Kind, maxrx int) *srv { v, _ := openL(k, maxrx, false); return v }
+
+// openL: with own set, the listener is made with NewListener and returned (so that it can be closed on its own).
+func openL(k *kinds.Kind, maxrx int, own bool) (*srv, mangos.Listener) {
 	s, err := k.New()
 	if err != nil {
 		kit.Failf("setup", "NewSocket: %v", err)
@@ -134,12 +147,81 @@ func open(k *kinds.Kind, maxrx int) *srv {
 			kit.Failf("setup", "MaxRecvSize: %s", kit.ErrName(err))
 		}
 	}
-	if err := s.Listen(scheme + "://" + addr); err != nil {
+	var l mangos.Listener
+	if own {
+		if l, err = s.NewListener(scheme+"://"+addr, nil); err == nil {
+			err = l.Listen()
+		}
+	} else {
+		err = s.Listen(scheme + "://" + addr)
+	}
+	if err != nil {
 		kit.Failf("setup", "Listen(%s over vnet): %s", scheme, kit.ErrName(err))
 	}
 	v.x = &kinds.Sock{K: k, S: s}
 	v.x.Quiet()
-	return v
+	return v, l
+}
+
+// ListenerClosed: a listener is closed on its own (not its socket) while connections it accepted
+// are in use: "closing a listener affects only that object".  The established connections stay
+// attached (no Detached event, the stream is not closed) and go on carrying messages; closing the
+// socket afterwards closes them.
+func ListenerClosed() {
+	pickScheme()
+	k := kinds.ByName([]string{"pair", "pull", "xsub", "rep"}[kit.ChooseFree(4)])
+	npeers := 1
+	if k.Name != "pair" {
+		npeers = 1 + kit.ChooseFree(2)
+	}
+	v, l := openL(k, -1, true)
+	var hs []*net.VConn
+	for i := 0; i < npeers; i++ {
+		h := v.goodPeer("before the listener is closed")
+		hs = append(hs, h)
+	}
+	if k.Name != "rep" {
+		for _, h := range hs {
+			v.exchange(h, "before the listener is closed")
+		}
+	}
+	kit.Must("Listener.Close", func() {
+		if err := l.Close(); err != nil {
+			kit.Failf("listener-close", "Listener.Close: %s", kit.ErrName(err))
+		}
+	})
+	kit.Quiesce()
+	kit.Sleep(time.Second)
+	kit.Quiesce()
+	for round := 0; round < 2; round++ {
+		for i, h := range hs {
+			if v.detached != 0 || h.ClosedByMangos() {
+				kit.Failf("listener-close-cut-an-established-connection", "%s over %s: the listener was closed on its own; connection %d of %d it had accepted was closed by the library (Detached events: %d)", k.Name, scheme, i, npeers, v.detached)
+			}
+			if k.Name != "rep" {
+				v.exchange(h, fmt.Sprintf("after the listener was closed, round %d", round))
+			}
+		}
+	}
+	if k.Name == "rep" {
+		// a request arrives on an established connection and is answered on it
+		v.x.PrepRecv()
+		hs[0].Feed(frame(append([]byte{0x80, 0, 0, 7}, "ask"...)))
+		c := kit.Start("Recv", func() (interface{}, error) { return v.x.Recv() })
+		kit.Quiesce()
+		if !c.Done() || c.Err != nil || c.Val.(string) != "ask" {
+			kit.Failf("control-peer-not-served:after the listener was closed", "rep: request on an established connection after the listener was closed: done=%v %s %q", c.Done(), kit.ErrName(c.Err), c.Val)
+		}
+	}
+	kit.Count("conversation-went-on-after-listener-close")
+	kit.Observe("%s %s %d", scheme, k.Name, npeers)
+	kit.Must("Close", func() { _ = v.x.S.Close() })
+	kit.Quiesce()
+	for i, h := range hs {
+		if !h.ClosedByMangos() {
+			kit.Failf("socket-close-left-connection-open", "%s: connection %d still open after the socket was closed", k.Name, i)
+		}
+	}
 }
 
 // goodPeer connects, completes the handshake and checks that it attaches.
@@ -768,6 +850,9 @@ func pat(seed, n int) []byte {
 	}
 	return b
 }
+
+// Chunking is exported for C02 (PAIR / PULL receiving over tcp and IPC framing, stream cut at every position).
+func Chunking(thorough bool) { chunking(thorough) }
 
 func chunking(thorough bool) {
 	pickScheme()
